@@ -646,6 +646,17 @@ pub fn gen_msgs(rng: &mut Rng, p: &Proxy, s: &Snap, sender: &str) -> Vec<CosmosM
 }
 
 /// (sender, op)
+/// an account name that resembles `a` without being it
+pub fn lookalike(rng: &mut Rng, a: &str) -> String {
+    match rng.below(8) {
+        0..=2 => a.to_uppercase(),
+        3 | 4 => a[..a.len().saturating_sub(1 + rng.below(6) as usize)].to_string(),
+        5 => format!("{a}q"),
+        6 => a[..a.len().min(9)].to_string(), // the bare bech32 prefix
+        _ => String::new(),
+    }
+}
+
 pub fn gen_op(rng: &mut Rng, p: &Proxy, s: &Snap) -> (String, Op) {
     let pl = pool();
     let admins: Vec<&String> = s.admins.iter().filter(|a| pl.actors.contains(a)).collect();
@@ -653,8 +664,9 @@ pub fn gen_op(rng: &mut Rng, p: &Proxy, s: &Snap) -> (String, Op) {
     let any = |rng: &mut Rng| rng.pick_cloned(&pl.actors);
     let admin_or_any = |rng: &mut Rng| {
         if !admins.is_empty() && rng.chance(1, 25) {
-            // a look-alike of an admin: same address in upper case (a different account)
-            (*rng.pick(&admins)).to_uppercase()
+            // a look-alike of an admin (a different account): upper case, cut short, extended, or no name at all
+            let a = (*rng.pick(&admins)).clone();
+            lookalike(rng, &a)
         } else if !admins.is_empty() && rng.chance(3, 4) {
             (*rng.pick(&admins)).clone()
         } else {
@@ -673,6 +685,13 @@ pub fn gen_op(rng: &mut Rng, p: &Proxy, s: &Snap) -> (String, Op) {
                 any(rng)
             };
             let msgs = gen_msgs(rng, p, s, &sender);
+            // now and then the call comes from a look-alike of an admin instead
+            let sender = if !admins.is_empty() && rng.chance(1, 30) {
+                let a = (*rng.pick(&admins)).clone();
+                lookalike(rng, &a)
+            } else {
+                sender
+            };
             (sender, Op::Execute { msgs })
         }
         1 => (admin_or_any(rng), Op::Freeze),
